@@ -499,6 +499,13 @@ class Sym:
                     r = prog.resolve_expr(self.fi.module, e)
                     if not r or r[0] == "ext":
                         return ("ext", full)
+            if d and d.split(".")[0] not in env:
+                # module-qualified package names:  types.String,  common.ObjectPath
+                r = prog.resolve_expr(self.fi.module, e)
+                if r and r[0] == "class":
+                    return ("class", r[1].qual)
+                if r and r[0] == "func":
+                    return ("func", r[1].qual)
             base = self.expr(e.value, env, depth)
             if base[0] == "class":
                 ci = prog.classes.get(base[1])
